@@ -11,6 +11,7 @@ CONSTANTS
   MaxSegs = 1
   NVals <- c_NVals
   KVals <- c_KVals
+  SVals = {0}
   Inherit = FALSE
   Layouts <- c_Layouts
   Orders <- c_Orders
